@@ -185,6 +185,17 @@ def incompressible_cases(seed):
         out.append({"id": "incompressible-%d" % k, "blocksize": bs, "restart": 16, "unaligned": bool(k % 2), "skipindex": True, "hash": hname, "exact": True,
                     "min": 5, "max": 20100, "refs": [], "logs": logs, "seekrefs": [""], "seeklogs": [{"n": l["n"], "i": l["i"]} for l in logs[:6]] + [{"n": "", "i": 0}],
                     "oids": [], "universe": [], "layout": True})
+    # one entry whose message is random BYTES, its length swept so that the block fills up to its last bytes: the deflated form
+    # then exceeds the block size by the deflater's fixed overhead (16 bytes with Go's zlib)
+    rng = random.Random(seed * 733 + 5)
+    for bs in (256, 1024, 4096):
+        for fill in sorted(set([bs - 112, bs - 105, bs - 100, bs - 96] + [bs - 120 + rng.randint(0, 40) for _ in range(2)])):
+            msg = bytes(rng.randrange(256) for _ in range(max(8, fill)))
+            k = len(out)
+            out.append({"id": "incompressible-%d" % k, "blocksize": bs, "restart": 16, "unaligned": False, "skipindex": True, "hash": "sha1", "exact": True,
+                        "min": 1, "max": 1, "refs": [],
+                        "logs": [{"n": "r", "i": 1, "del": False, "old": "02" * 20, "new": "01" * 20, "user": "", "email": "", "time": 1, "tz": 0, "msg": "", "msghex": msg.hex()}],
+                        "seekrefs": [""], "seeklogs": [{"n": "r", "i": 1}, {"n": "", "i": 0}], "oids": [], "universe": [], "layout": True})
     return out
 
 
